@@ -12,6 +12,7 @@ import (
 	"strings"
 
 	"github.com/postalsys/muti-metroo/internal/config"
+	"github.com/postalsys/muti-metroo/verifharness/hcq"
 	"github.com/postalsys/muti-metroo/verifharness/vh"
 )
 
@@ -54,7 +55,6 @@ func envList(e envT) []kv {
 	return out
 }
 
-func hx(s string) string { return fmt.Sprintf("(hx \"%x\")", s) }
 
 var names = []string{"A", "B", "_", "A1", "AB", "a", "A_", "_1", "Z9"}
 var values = []string{"", "v", "$A", "${B}", "${A:-x}", "$B$A", "}", "$", "x y", "\xc3\xa9", "${", ":-", "${Z9:-${A}}", "line1\nline2", "BOOM"}
@@ -151,7 +151,8 @@ func main() {
 	c.Res.Rule = "case = (environment, text) -> config.expandEnvVars output, compared with the model's expand; " +
 		"non-trivial = the text contains a dollar sign; distinct = distinct (environment, text)"
 
-	var coq []string
+	body := &hcq.Enc{}
+	nCases := 0
 	run := func(kind string, e envT, text string, expected string, hasExp bool) {
 		rp := replay{Kind: kind, Env: envList(e), Text: hex.EncodeToString([]byte(text)), HasExp: hasExp,
 			Expected: hex.EncodeToString([]byte(expected)), TextQ: fmt.Sprintf("%q", text)}
@@ -180,13 +181,17 @@ func main() {
 			c.Fail("documented-form-wrong", fmt.Sprintf("text %q with env %v expanded to %q, documented forms give %q", text, e, got, expected), rp)
 		}
 		// cases.v entry
-		items := make([]string, 0, len(e))
-		for _, p := range envList(e) {
+		el := envList(e)
+		body.Int(len(el))
+		for _, p := range el {
 			k, _ := hex.DecodeString(p.K)
 			v, _ := hex.DecodeString(p.V)
-			items = append(items, fmt.Sprintf("(%s, %s)", hx(string(k)), hx(string(v))))
+			body.Ref(string(k))
+			body.Ref(string(v))
 		}
-		coq = append(coq, fmt.Sprintf("(%s, %s, %s)", vh.CoqList(items), hx(text), hx(got)))
+		body.Ref(text)
+		body.Ref(got)
+		nCases++
 	}
 
 	if c.Replay != "" {
@@ -270,9 +275,5 @@ func main() {
 	}
 	os.Clearenv()
 
-	var sb strings.Builder
-	sb.WriteString("From Coq Require Import List NArith String.\nFrom MM Require Import Lib.HStr Model.EnvExpand.\nImport ListNotations.\nOpen Scope string_scope.\n")
-	sb.WriteString("Definition cases : list case := \n" + vh.CoqList(coq) + ".\n")
-	sb.WriteString("Definition M := Eval vm_compute in mismatches cases.\nPrint M.\n")
-	c.WriteCasesV("cases.v", sb.String())
+	c.WriteCasesV("cases.v", hcq.CasesFileT("Model.EnvExpand", nCases, body, "d_case"))
 }
